@@ -88,7 +88,7 @@ def search(bdir, row, hmcs, net, threads, hashmb):
                     if any(" pv " in x for x in lines_all):
                         break
             eng.send("stop")
-            lines, ok = eng.read_until(lambda l: l.startswith("bestmove"), 30)
+            lines, ok = eng.read_until(lambda l: l.startswith("bestmove"), 180)
             lines_all += lines
             if not ok:
                 out.append((None, "no-bestmove", fen))
